@@ -153,6 +153,10 @@ def name_from_href(href):
     return p.rstrip("/").rsplit("/", 1)[-1]
 
 
+def draw_suffix(i):
+    return [";1", ";type=a", ";", ",x", "=1"][i % 5]
+
+
 def parse_etag_list(value):
     """-> (wellformed, star, [strong etags]).  Strong comparison (RFC 7232 2.3.2)."""
     items = [x.strip(" \t") for x in value.split(",")]
@@ -328,7 +332,13 @@ class Runner:
         self.stats["op:" + op] += 1
         touched = getattr(self, "op_" + op.replace("-", "_"))(step)
         self.last_touched = set(touched or ())
-        self.audit(touched or set(), full=(op == "RESTART"), fe=step.get("afe", "wsgi"), step=step)
+        if self.cfg.get("audit") == "sparse" and op != "AUDIT":
+            # sparse mode: the harness does not read anything between the program's own requests, so that
+            # state kept by the server between requests (caches) is not refreshed by the audit itself
+            self.pending_touched = getattr(self, "pending_touched", set()) | self.last_touched
+            self.stats["sparse-steps"] += 1
+            return
+        self.audit(touched or set(), full=(op in ("RESTART", "AUDIT")), fe=step.get("afe", "wsgi"), step=step)
         for name in ("uid", "etagviews", "ctag", "git", "sync", "props", "hrefs"):
             if name in self.obs:
                 getattr(self, "obs_" + name)(step)
@@ -587,6 +597,20 @@ class Runner:
             self.stats["5xx"] += 1
             self.note5xx(st, r)
         return set()
+
+    def op_AUDIT(self, st):
+        self.last = {"op": "AUDIT", "ack": False}
+        return set(self.model.colls)
+
+    def refresh_etags(self, coll, fe="wsgi"):
+        """Member ETags by HEAD (does not list the collection); used by probes in sparse-audit mode."""
+        mc = self.model.colls.get(coll)
+        if mc is None:
+            return
+        for n in mc.members:
+            r = self.req(fe, "HEAD", self.member_path(coll, n), None, None)
+            if r.status == 200 and r.header("ETag"):
+                self.cur_etag[(coll, n)] = r.header("ETag")
 
     def op_RESTART(self, st):
         self.world.restart()
@@ -1224,9 +1248,11 @@ class Runner:
         mc = self.model.colls.get(coll)
         slash = "/" if st.get("slash", True) else ""
         self.last = {"op": "HREFS", "ack": False, "coll": coll}
+        if self.cfg.get("audit") == "sparse":
+            self.refresh_etags(coll, fe)
         # every member must have a distinct ETag for identification
         if mc is not None:
-            ets = [self.cur_etag[(coll, n)] for n in mc.members]
+            ets = [self.cur_etag.get((coll, n)) for n in mc.members]
             if len(set(ets)) != len(ets):
                 self.stats["href:skipped-ambiguous"] += 1
                 return set()
@@ -1359,8 +1385,16 @@ class Runner:
         if k == "dead":
             cands = [n for n in pools["names"] if n not in live]
             return member_href(coll, cands[i % len(cands)] if cands else "never-%d.ics" % i)
-        if k == "never" or (k in ("live", "overencoded", "absolute", "lookalike", "noprefix") and not live):
+        if k == "never" or (k in ("live", "literal", "params-suffix", "overencoded", "absolute", "lookalike", "noprefix") and not live):
             return member_href(coll, "never-%d.ics" % i)
+        if k == "literal" and live:
+            # minimal encoding: sub-delimiters (; , = + & @ ! $ ' ( ) * :) stay literal, as RFC 3986 allows in a path segment
+            n = live[i % len(live)]
+            return self.world.url(coll + "/" + urllib.parse.quote(n, safe=";,=+&@!$'()*:~"))
+        if k == "params-suffix" and live:
+            # '<existing name>;1' is a different, non-existent resource
+            n = live[i % len(live)]
+            return self.world.url(coll + "/" + dav.quote_name(n)) + draw_suffix(i)
         if k == "overencoded":
             n = live[i % len(live)]
             return self.world.url(coll + "/" + "".join("%%%02X" % b for b in n.encode("utf-8")))
